@@ -65,6 +65,7 @@ fn main() {
     };
 
     let code = if let Some(file) = replay_file {
+        std::env::set_var("VERIF_REPLAY_SOURCE", file.display().to_string());
         let text = std::fs::read_to_string(&file).unwrap_or_else(|e| {
             eprintln!("cannot read replay file {}: {}", file.display(), e);
             std::process::exit(3);
